@@ -136,11 +136,57 @@ def viewStr (k : Kind) (s : Store) (q : List (List Bytes)) : String :=
   | .neofsid =>
     let ks := q0.map (fun o => s!"{hexOf o}:[{joinWith ";" ((idKeys s o).map hexOf)}]")
     s!" keys=[{joinWith ";" ks}]"
+  | .alphabet =>
+    let nm := match get s NeoFS.Generated.alphabet_nameKey_bytes with | none => "null" | some b => hexOf b
+    s!" name={nm}"
   | _ => ""
 
-def obs (d : DState) (halt : Bool) (q : List (List Bytes)) (br : String) : String :=
+/-- `id:amount,…` -/
+def parseAmounts (s : String) : List (Bytes × Int) :=
+  if s == "-" || s == "" then []
+  else (s.splitOn ",").filterMap (fun e =>
+    match e.splitOn ":" with
+    | [k, v] => v.toInt?.map (fun x => (parseHex k, x))
+    | _ => none)
+
+/-- `id:amount:till,…` (Notary deposits before the invocation) -/
+def parseDeposits (s : String) : List (Bytes × Int) × List (Bytes × Int) :=
+  if s == "-" || s == "" then ([], [])
+  else
+    let es := (s.splitOn ",").filterMap (fun e =>
+      match e.splitOn ":" with
+      | [k, v, t] => match v.toInt?, t.toInt? with
+        | some x, some y => some (parseHex k, x, y)
+        | _, _ => none
+      | _ => none)
+    (es.map (fun e => (e.1, e.2.1)), es.map (fun e => (e.1, e.2.2)))
+
+def parseLedger (ws : List String) : Ledger :=
+  let d := parseDeposits ((attr ws "dpt").getD "-")
+  { bal := parseAmounts ((attr ws "led").getD "-"), dep := d.1, till := d.2 }
+
+/-- the Alphabet contract's view of the chain, from the attributes the harness fills in -/
+def parseAlpha (ws : List String) : AlphaEnv :=
+  let hx := fun (k : String) => parseHex ((attr ws k).getD "-")
+  { self := hx "self", notary := hx "ntr", netmapHash := hx "nmc",
+    nodes := (parseHexList ((attr ws "nodes").getD "-")).map (fun b => Item.struct [Item.bytes b, Item.int 1]),
+    irKeys := parseHexList ((attr ws "irk").getD "-"),
+    nnsProxy := match attr ws "nns" with | none => none | some v => if v == "-" then none else some (parseHex v),
+    rejecting := parseHexList ((attr ws "rej").getD "-"),
+    notaryFee := ((attr ws "fee").bind (·.toInt?)).getD 0,
+    ledger := parseLedger ws }
+
+/-- GAS balances and Notary deposits of the accounts named in `acc=` -/
+def ledgerStr (L : Ledger) (ws : List String) : String :=
+  let acc := parseHexList ((attr ws "acc").getD "-")
+  let gas := acc.map (fun a => s!"{hexOf a}:{balOf L a}")
+  let dep := (acc.filter (fun a => a.length == 33)).map (fun a =>
+    s!"{hexOf a}:{depOf L a}:" ++ (match tillOf L.till a with | some t => toString t | none => "-"))
+  s!" gas=[{joinWith ";" gas}] dep=[{joinWith ";" dep}]"
+
+def obs (d : DState) (halt : Bool) (q : List (List Bytes)) (br : String) (extra : String := "") : String :=
   (if halt then "HALT" else "FAULT") ++ s!" | ver={d.st.ver} raw=[{showStore d.st.store}]" ++
-    viewStr d.kind d.st.store q ++ s!" br={br}"
+    viewStr d.kind d.st.store q ++ extra ++ s!" br={br}"
 
 /-- smallest `height - ballot.Height` among readable ballots (for the branch histogram only) -/
 def minGap (h : Int) (l : List Item) : Option Int :=
@@ -189,7 +235,7 @@ def branchOf (k : Kind) (st : CState) (env : Env) (data : Item) (nefOk : Bool) :
           (if k = .netmap ∧ v < 16000 then ["netmap.nodes16"] else []) ++
           (if k = .netmap ∧ v < 19000 then ["netmap.subscribers19"] else []) ++
           (if k = .nns ∧ v < 18000 then ["nns.tld18"] else [])
-        let res := match migrate k v args env.height st.store with
+        let res := match migrate k v args env st.store with
           | none => kindS ++ ".migrate.fault"
           | some _ => kindS ++ ".ok"
         joinWith "," (res :: sub)
@@ -207,10 +253,11 @@ def stepLine (ds : Option DState) (line : String) : Option DState × List String
     | none => (ds, ["bad-line"])
     | some d =>
       let q := parseQueries ((attr ws "q").getD "-")
-      if d.updated then (ds, [obs d false q "load.gone"])
+      let ex := if d.kind == .alphabet then ledgerStr (parseLedger ws) ws else ""
+      if d.updated then (ds, [obs d false q "load.gone" ex])
       else
         let d' := { d with st := { d.st with store := parseKV ((attr ws "kv").getD "-") } }
-        (some d', [obs d' true q "load"])
+        (some d', [obs d' true q "load" ex])
   | "op" :: "update" :: _ =>
     match ds with
     | none => (ds, ["bad-line"])
@@ -219,12 +266,16 @@ def stepLine (ds : Option DState) (line : String) : Option DState × List String
       match (attr ws "data").bind parseItem, (attr ws "h").bind (·.toInt?) with
       | some data, some h =>
         let env : Env := ⟨parseSigners ((attr ws "sig").getD "-"), List.range d.n,
-                          parseIds ((attr ws "role").getD "-"), h⟩
+                          parseIds ((attr ws "role").getD "-"), h,
+                          if d.kind == .alphabet then parseAlpha ws else {}⟩
         let nefOk := (attr ws "nef").getD "ok" == "ok"
         let br := branchOf d.kind d.st env data nefOk
+        let L' := ledgerAfterUpdate d.kind d.st env data nefOk
+        let moved := d.kind == .alphabet && balOf L' env.alpha.self != balOf env.alpha.ledger env.alpha.self
         let (st', ok) := invoke d.kind d.st env (.update data nefOk)
         let d' := { d with st := st', updated := d.updated || ok }
-        (some d', [obs d' ok q br])
+        let ex := if d.kind == .alphabet then ledgerStr L' ws else ""
+        (some d', [obs d' ok q (br ++ (if moved then ",alphabet.gas-distributed" else "")) ex])
       | _, _ => (ds, ["bad-op"])
   | _ => (ds, ["bad-line"])
 
